@@ -67,6 +67,9 @@ def main():
         if prop == "C05":
             import props_helpers
             return props_helpers.run(prop, tier)
+        if prop == "C04":
+            import props_capture
+            return props_capture.run(prop, tier)
         print("unknown property", prop)
         return 2
     except (common.MachineryError, tlcrun.TLCError) as e:
